@@ -250,6 +250,10 @@ fn run_process_party(prog: &ProgSpec, party: &PartySpec) -> Result<Vec<(Outcome,
             Ok(p) if std::path::Path::new(&p).exists() => std::path::PathBuf::from(p),
             _ => return Err("no devbuild (nodebug-style twin) available (not a thorough run through ./check)".into()),
         },
+        Some("native") => match std::env::var("VERIF_NATIVE_BIN") {
+            Ok(p) if std::path::Path::new(&p).exists() => std::path::PathBuf::from(p),
+            _ => return Err("no native build (nodebug-style twin) available (not a run through ./check)".into()),
+        },
         _ => std::env::current_exe().map_err(|e| e.to_string())?,
     };
     let single = World { program: prog.clone(), parties: vec![PartySpec { process: false, ..party.clone() }], concurrent: None };
@@ -532,7 +536,14 @@ pub fn make_world(plan: &Plan, seed: u64, idx: u64) -> (World, String, Prng) {
         ("corpus", e.name.clone(), e.src.clone())
     } else if idx < plan.n_corpus + plan.tier.generated {
         // one in twenty: constant arithmetic at the boundaries of the number types
-        let src = if p.chance(1, 20) { gen::const_arith_program(&mut p) } else { gen::program(&mut p) };
+        // one in twenty-five: one count of the program (bindings, functions, fields, ...) is large
+        let src = if p.chance(1, 20) {
+            gen::const_arith_program(&mut p)
+        } else if p.chance(1, 25) {
+            gen::scaled_program(&mut p)
+        } else {
+            gen::program(&mut p)
+        };
         ("generated", format!("gen-{idx}"), src)
     } else if idx < plan.n_corpus + plan.tier.generated + plan.tier.ill_typed {
         ("ill_typed", format!("ill-{idx}"), gen::ill_typed(&mut p))
@@ -678,6 +689,11 @@ pub fn make_world(plan: &Plan, seed: u64, idx: u64) -> (World, String, Prng) {
         if plan.nodebug_parties {
             // the cold party's twin, running a release-style build of the library
             parties.push(PartySpec { keys, steps: vec![target.clone()], process: true, alloc_limit: None, env_flip: vec![], build: Some("nodebug".into()), cpus: None });
+            // ... and one built for the CPU of the machine it runs on (RUSTFLAGS=-C target-cpu=native):
+            // cfg(target_feature = ...) selects other code there
+            if family == "big" || p.chance(1, 3) {
+                parties.push(PartySpec { keys, steps: vec![target.clone()], process: true, alloc_limit: None, env_flip: vec![], build: Some("native".into()), cpus: None });
+            }
             if family == "generated" && p.chance(1, 6) {
                 parties.push(PartySpec { keys, steps: vec![target.clone()], process: true, alloc_limit: None, env_flip: vec![], build: Some("devbuild".into()), cpus: None });
             }
